@@ -16,6 +16,7 @@ import (
 //	collide   change three neighbouring bytes at or after Off (same 64KiB block) by +1, -2, +1: the block's
 //	          rolling (weak) hash stays the same, only the strong hash tells the difference; falls back to
 //	          flip when the block has no position where that is possible without a byte wrapping around
+//	scramble  xor the bytes [Off, Off+Len) with 0x5a: contiguous damage over several blocks
 //	truncate  cut the file to Len bytes
 //	extend    append Len bytes
 //	delete    remove the entry (recursively for directories)
@@ -83,6 +84,18 @@ func ApplyDmg(dir string, d Dmg) error {
 		return nil
 	}
 	switch d.Op {
+	case "scramble":
+		if !st.Mode().IsRegular() || int64(d.Off) >= st.Size() || d.Len <= 0 {
+			return nil
+		}
+		b, err := os.ReadFile(fp)
+		if err != nil {
+			return err
+		}
+		for i := d.Off; i < d.Off+d.Len && i < len(b); i++ {
+			b[i] ^= 0x5a
+		}
+		return os.WriteFile(fp, b, st.Mode().Perm())
 	case "collide":
 		if !st.Mode().IsRegular() || int64(d.Off) >= st.Size() {
 			return nil
@@ -279,6 +292,16 @@ func GenDamages(t *rapid.T, signed Tree, maxN int, hidden, whole bool) []Dmg {
 				if k == 5 {
 					d.Op = "collide"
 				}
+				if k == 4 && size > 1 {
+					// contiguous damage: part of a block, or several adjacent blocks
+					d.Op = "scramble"
+					d.Off = rapid.IntRange(0, (size-1)/BS).Draw(t, "scramble-block")*BS + rapid.SampledFrom([]int{0, 0, 1, BS - 1}).Draw(t, "scramble-in-block")
+					if d.Off >= size {
+						d.Off = size - 1
+					}
+					d.Len = rapid.SampledFrom([]int{2, BS, BS + 1, 2 * BS, 3*BS + 7, size}).Draw(t, "scramble-len")
+					break
+				}
 				if size == 0 {
 					d.Op = "extend"
 					d.Len = rapid.SampledFrom([]int{1, 100, BS, BS + 1}).Draw(t, "fill-empty")
@@ -370,6 +393,20 @@ func DmgClasses(signed Tree, ds []Dmg) []string {
 		}
 		size := e.C.Len()
 		switch d.Op {
+		case "scramble":
+			end := d.Off + d.Len
+			if end > size {
+				end = size
+			}
+			if end > d.Off {
+				nb := (end-1)/BS - d.Off/BS + 1
+				switch {
+				case nb > 64:
+					cl = append(cl, "damage:contiguous->64-blocks")
+				case nb > 1:
+					cl = append(cl, "damage:contiguous-2..64-blocks")
+				}
+			}
 		case "collide":
 			cl = append(cl, "damage:same-weak-hash")
 		case "flip":
